@@ -41,10 +41,10 @@ theorem applyReturnsNil_eq : Generated.applyReturnsNilOnError = true := rfl
 theorem errorSites_eq : Generated.errorSites =
     [("DecodePatch", ["r:ErrInvalid", "w:ErrInvalid"]),
      ("add", ["w:ErrMissing", "w:ErrMissing", "w:err"]),
-     ("copy", ["w:err", "w:ErrMissing", "w:err", "w:ErrMissing", "w:ErrMissing", "w:err", "r:NewAccumulatedCopySizeError", "w:err"]),
+     ("copy", ["w:err", "w:ErrInvalid", "w:ErrMissing", "w:err", "w:ErrMissing", "w:ErrMissing", "w:err", "r:NewAccumulatedCopySizeError", "w:err"]),
      ("doMergePatch", ["r:ErrBadJSONDoc", "r:ErrBadJSONPatch", "r:ErrBadJSONDoc", "r:ErrBadJSONDoc", "r:ErrBadJSONPatch", "r:ErrBadJSONPatch"]),
      ("ensurePathExists", ["w:ErrInvalidIndex", "w:ErrInvalidIndex"]),
-     ("move", ["w:err", "w:ErrInvalid", "w:ErrMissing", "w:err", "w:err", "w:err", "w:err", "w:ErrMissing", "w:err"]),
+     ("move", ["w:err", "w:ErrInvalid", "w:ErrMissing", "w:err", "w:err", "w:err", "w:ErrMissing", "w:err"]),
      ("partialArray.add", ["r:ErrInvalid", "w:err", "w:ErrInvalidIndex", "w:ErrInvalidIndex", "w:ErrInvalidIndex"]),
      ("partialArray.get", ["r:ErrInvalid", "w:ErrInvalidIndex", "w:ErrInvalidIndex", "w:ErrInvalidIndex"]),
      ("partialArray.remove", ["r:ErrInvalid", "w:ErrInvalidIndex", "w:ErrInvalidIndex", "w:ErrInvalidIndex"]),
@@ -83,8 +83,8 @@ theorem conditions_eq : Generated.conditions =
      ("DecodePatch", ["if !json.Valid(buf)", "if err != nil", "if p == nil", "if err := validatePatch(p); err != nil"]),
      ("Equal", ["if !json.Valid(a) || !json.Valid(b)"]),
      ("Patch.add", ["if err != nil", "if path == \"\"", "if (*val.raw)[0] == '['", "else", "if err != nil", "if options.EnsurePathExistsOnAdd", "if err != nil", "if con == nil", "if err != nil"]),
-     ("Patch.copy", ["if err != nil", "if con == nil", "if err != nil", "if from == \"\"", "if err != nil", "if con == nil", "if err != nil", "if options.AccumulatedCopySizeLimit > 0 && *accumulatedCopySize > options.AccumulatedCopySizeLimit", "if err != nil"]),
-     ("Patch.move", ["if err != nil", "if from == \"\"", "if con == nil", "if err != nil", "if key == \"\" && val != nil", "if err != nil", "if err != nil", "if err != nil", "if con == nil", "if err != nil"]),
+     ("Patch.copy", ["if err != nil", "if from == \"\"", "if val.isNull()", "else", "if con == nil", "if err != nil", "if err != nil", "if con == nil", "if err != nil", "if options.AccumulatedCopySizeLimit > 0 && *accumulatedCopySize > options.AccumulatedCopySizeLimit", "if err != nil"]),
+     ("Patch.move", ["if err != nil", "if from == \"\"", "if con == nil", "if err != nil", "if err != nil", "if err != nil", "if con == nil", "if err != nil"]),
      ("Patch.remove", ["if err != nil", "if con == nil", "if options.AllowMissingPathOnRemove", "if err != nil"]),
      ("Patch.replace", ["if err != nil", "if path == \"\"", "if val.which == eRaw", "if !val.tryDoc(options)", "if !val.tryAry()", "switch val.which", "case eAry", "case eDoc", "case eRaw", "if con == nil", "if ok != nil", "if err != nil"]),
      ("Patch.test", ["if err != nil", "if path == \"\"", "switch sv := (*doc).(type)", "case *partialDoc", "case *partialArray", "if self.equal(op.value(), options)", "if con == nil", "if err != nil && errors.Unwrap(err) != ErrMissing", "if val.isNull() || ov.isNull()", "if val.isNull() && ov.isNull()", "if val.equal(op.value(), options)"]),
@@ -100,10 +100,10 @@ theorem conditions_eq : Generated.conditions =
      ("lazyNode.tryAry", ["if n.raw == nil", "if err != nil"]),
      ("lazyNode.tryDoc", ["if n.raw == nil", "if err != nil", "if n.doc == nil"]),
      ("partialArray.add", ["if d == nil", "if key == \"-\"", "if err != nil", "if idx >= len(ary)", "if idx < 0", "if !options.SupportNegativeIndices", "if idx < -len(ary)"]),
-     ("partialArray.get", ["if d == nil", "if key == \"\"", "if err != nil", "if idx < 0", "if !options.SupportNegativeIndices", "if idx < -len(d.nodes)", "if idx >= len(d.nodes)"]),
+     ("partialArray.get", ["if d == nil", "if err != nil", "if idx < 0", "if !options.SupportNegativeIndices", "if idx < -len(d.nodes)", "if idx >= len(d.nodes)"]),
      ("partialArray.remove", ["if d == nil", "if err != nil", "if idx >= len(cur.nodes)", "if options.AllowMissingPathOnRemove", "if idx < 0", "if !options.SupportNegativeIndices", "if idx < -len(cur.nodes)", "if options.AllowMissingPathOnRemove"]),
      ("partialArray.set", ["if d == nil", "if err != nil", "if idx < 0", "if !options.SupportNegativeIndices", "if idx < -len(d.nodes)"]),
-     ("partialDoc.get", ["if key == \"\"", "if d.obj == nil", "if !ok"]),
+     ("partialDoc.get", ["if d.obj == nil", "if !ok"]),
      ("partialDoc.remove", ["if d.obj == nil", "if !ok", "if options.AllowMissingPathOnRemove", "for i, k := range d.keys", "if k == key"]),
      ("partialDoc.set", ["if d.obj == nil", "for _, k := range d.keys", "if k == key", "if !found"]),
      ("validateOperation", ["switch op.Kind()", "case \"add\", \"replace\"", "if _, err := op.ValueInterface(); err != nil", "case \"move\", \"copy\"", "if _, err := op.From(); err != nil", "case \"remove\", \"test\"", "default", "if _, err := op.Path(); err != nil"])] := rfl
